@@ -268,6 +268,25 @@ pub fn generate(rng: &mut Rng, tier: Tier, emit: &mut dyn FnMut(String)) {
             add_op(by("Option<i32>"), 1, &int),
         ));
     }
+    // the 16-bit boundary on every bind path
+    let ns: Vec<usize> = if thorough { vec![0, 1, 255, 256, 32767, 32768, 65534, 65535, 65536, 65537, 70000, 131071, 131072] } else { vec![1, 65534, 65535, 65536, 65537, 70000] };
+    for kind in ["slice_i32", "slice_opt", "vec_str", "map", "writer", "add"] {
+        for n in &ns {
+            emit(format!("bind {} {}", kind, n));
+        }
+    }
+    for parts in [vec![65535usize], vec![65535, 0], vec![65535, 1], vec![1, 65535], vec![32768, 32767], vec![32768, 32768], vec![40000, 40000], vec![65535, 65535], vec![30000, 30000, 5535], vec![30000, 30000, 5536], vec![0, 0]] {
+        emit(format!("bind append {}", parts.iter().map(|p| p.to_string()).collect::<Vec<_>>().join(" ")));
+    }
+    for (n, k) in [(0usize, 65534usize), (0, 65535), (65534, 0), (65535, 0), (30000, 35534), (30000, 35535), (70000, 10)] {
+        emit(format!("bind mixed {} {}", n, k));
+    }
+    for _ in 0..(if thorough { 12 } else { 3 }) {
+        let a = rng.range(0, 65535) as usize;
+        let b = (65535 - a as i64 + rng.range(-2, 2)).max(0) as usize;
+        emit(format!("bind append {} {}", a, b));
+        emit(format!("bind mixed {} {}", a, b.saturating_sub(1)));
+    }
     for kind in ["top", "nested", "tuple"] {
         emit(format!("big {}", kind));
     }
